@@ -12,6 +12,10 @@ HOOKS = {
 ENGINES = [
     {"name": "E1 tabsym", "path": "vlib/e1.py", "serves_properties": ["C01","C04","C05","C12","C13","C14","C15","C25"],
      "kind_free_text": "Kani/CBMC bounded model checking of the real generated table functions (harness injected into the generated module), CYK oracle from an independent specification CFG"},
+    {"name": "E2 redsym", "path": "vlib/e2.py", "serves_properties": ["C02", "C06", "C14", "C17"],
+     "kind_free_text": "Kani/CBMC on one real generated reduce step per production, recording actions, expectations from corpus/actions.py"},
+    {"name": "E3 symdrive", "path": "engines/symdrive + vlib/e3.py", "serves_properties": ["C04", "C05", "C08", "C16", "C17"],
+     "kind_free_text": "dynamic symbolic execution of the real natively compiled lalrpop_util driver instantiated with SMT-term handles; z3 decides branch feasibility; event-log property checks"},
     {"name": "E4 lexsym", "path": "vlib/lexsym.py", "serves_properties": ["C09", "C10", "C11"],
      "kind_free_text": "z3 sequence/regex theory over the lexer tables the real generator emitted; regex-syntax HIR via engines/hirdump; alphabet compression; native confirmation with the real Matcher"},
     {"name": "kernels", "path": "vlib/kernel.py", "serves_properties": ["C28"],
@@ -35,13 +39,14 @@ chk("C04", "E1 tabsym", "model_checking",
     "For each corpus grammar x 3 algorithms x pub start: for ALL token sequences up to N (quick 5, thorough 7) CBMC decides that the LR run over the real "
     "generated tables rejects exactly at the first token whose prefix is not a prefix of any sentence (oracle: CYK over CNF(Pre(G))), at end of input iff every "
     "prefix is viable, and never reaches an accept action with input left (no ExtraToken). Exact token/span/EOF location are compared on native runs of the public parse() "
-    "for all inputs up to length 3/4 and on every replayed counterexample.",
-    E1_NOTE, "bounded model checking (Kani/CBMC) of generated tables vs viable-prefix CYK oracle", "DESIGN.md §3 C04")
+    "for all inputs up to length 3/4 and on every replayed counterexample. Driver stage (native DSE + z3, all tables within the step bounds): the error carries exactly the last pulled triple, "
+    "UnrecognizedEof carries the end of the last token / start location, tokens pulled = shifts + 1, ExtraToken only after an accept reduction under a lookahead.",
+    E1_NOTE + " " + E3_NOTE, "bounded model checking (Kani/CBMC) of generated tables vs viable-prefix CYK oracle + dynamic symbolic execution (z3) of the real driver", "DESIGN.md §3 C04")
 chk("C05", "E1 tabsym", "model_checking",
     "For all rejected inputs up to N (quick 4, thorough 6) and every terminal t: simulating the real tables from the error stack on t reaches shift/accept only if "
     "prefix.t is viable (all algorithms), and iff for canonical LR(1). The generated __accepts/__expected_tokens_from_states run natively on all inputs up to length 3/4 "
-    "(soundness, completeness for LR(1), duplicates).",
-    E1_NOTE, "bounded model checking (Kani/CBMC) of generated tables: error-stack simulation vs viable-prefix oracle, symbolic inputs and candidate terminal", "DESIGN.md §3 C05")
+    "(soundness, completeness for LR(1), duplicates). Driver stage (native DSE + z3): the expected list placed in the error is the one computed from the state stack as it was when the error action was met (also with recovery on).",
+    E1_NOTE + " " + E3_NOTE, "bounded model checking (Kani/CBMC) of generated tables: error-stack simulation vs viable-prefix oracle + dynamic symbolic execution (z3) of the real driver", "DESIGN.md §3 C05")
 _SUGAR = ("language of the real generated tables == language of the documented desugaring computed on the specification side (corpus/gram.py), for ALL token "
           "sequences up to N (quick 5, thorough 7), decided by CBMC; ")
 chk("C12", "E1 tabsym", "model_checking", _SUGAR + "corpus: calculator, right/none/prefix/postfix/ternary, restated level, inheritance, interleaved and non-contiguous levels, "
@@ -51,8 +56,9 @@ chk("C13", "E1 tabsym", "model_checking", _SUGAR + "corpus: Comma<T>, X*/X+/X? o
     "macro uses, close-but-distinct instantiations, forwarding of parameters. Values (Vec/Option/tuple) are not covered here.", E1_NOTE,
     "bounded model checking (Kani/CBMC): tables of the macro grammar vs CYK over the substituted grammar", "DESIGN.md §3 C13")
 chk("C14", "E1 tabsym", "model_checking", _SUGAR + "for every subset of the inlinable nonterminals of each base grammar (all 2^k, k<=3 in thorough; none/all/singletons in quick) "
-    "the tables are equivalent to the same specification CFG. Action order/values of inlined actions are not covered here.", E1_NOTE,
-    "bounded model checking (Kani/CBMC): tables of each inlined variant vs the same CYK oracle", "DESIGN.md §3 C14")
+    "the tables are equivalent to the same specification CFG; order half (engine E2): per real reduce step of the inlined grammars the inlined actions run left to right just before the outer one, a failing inlined action is returned verbatim. "
+    "Two known findings (different inlined nonterminals side by side run in inlining order).", E1_NOTE + " " + E2_NOTE,
+    "bounded model checking (Kani/CBMC): tables of each inlined variant vs the same CYK oracle + one real reduce step per inlined production", "DESIGN.md §3 C14")
 chk("C15", "E1 tabsym", "model_checking", _SUGAR + "for every feature set (all 2^k) given by --features and via CARGO_FEATURE_* through the library API; the real "
     "__token_to_integer must map every active terminal; plus generator-verdict differential against the physically deleted grammar.", E1_NOTE,
     "bounded model checking (Kani/CBMC) per exhaustively enumerated feature set: tables vs CYK over the deleted grammar", "DESIGN.md §3 C15")
@@ -84,8 +90,38 @@ chk("C11", "E4 lexsym", "translation_validation",
     "terminals tie on some string no higher-precedence terminal claims; the generator must answer 'ambiguity detected' exactly then, and the unsupported-feature diagnostic for look-around / non-greedy / named captures.", E4_NOTE,
     "SMT (z3 regex theory): non-emptiness of pairwise intersections minus higher-precedence languages vs the generator's verdict", "DESIGN.md §3 C11")
 
+E2_NOTE = ("Trusted: rustc/Kani/CBMC; corpus/actions.py (documented default actions, binding forms, @L/@R neighbour rule, inline composition) as the expectation; "
+           "the stack is concretely shaped (k children + 0/1 symbol below), its contents symbolic; recording actions replace user code. Counterexamples are replayed natively by Kani's concrete playback "
+           "against the real generated code before being reported.")
+E3_NOTE = ("Trusted: engines/symdrive (decision scheduling shim + event-log checker, ~600 lines), z3, and the printed ParserDefinition contract (EOF actions never shift; pops bounded by the stack; "
+           "error column never accepts; reduce() behaves like the generated __reduce). The code under execution is the real natively compiled state_machine.rs; tables are uninterpreted functions, "
+           "so one exploration covers all automata within the step bounds.")
+chk("C02", "E2 redsym", "model_checking",
+    "For every production of the action corpus (named/mut/tuple bindings, <>, default unit/single/tuple actions, inlined and fallible actions) Kani executes the REAL generated __reduce(p, ..) on a stack of "
+    "symbolic values/locations/states and decides that the recording-action log is exactly the post-order, left-to-right call sequence with the right arguments, each node once, the pushed value is the "
+    "documented one, states are popped/pushed per __simulate_reduce/__goto. Composition with C01 (which reduction when) and the driver engine gives whole-parse results (argument, not a solver verdict).",
+    E2_NOTE, "bounded model checking (Kani/CBMC) of one real reduce step per production from an arbitrary well-typed stack", "DESIGN.md §2 E2, §3 C02")
+chk("C06", "E2 redsym", "model_checking",
+    "PARTIAL (table-driven backend): same harnesses as C02 with symbolic usize locations everywhere: span = (first child start, last child end); empty production = lookahead start | end of the symbol below | Default; "
+    "@L/@R values as received by the recording actions (neighbour rule, inlined empties). One known finding (adjacent `@L @R`).", E2_NOTE,
+    "bounded model checking (Kani/CBMC) of one real reduce step with symbolic locations", "DESIGN.md §3 C06")
+chk("C08", "E1+E3+E4", "model_checking",
+    "PARTIAL, bounded, per component: (i) LR run over the real tables halts within the derived fuel/stack bound for all inputs <= N (Kani); (ii) every path of the real state_machine.rs driver within the step bounds "
+    "(plain, stream/action errors, recovery) returns without panic (native DSE + z3); (iii) built-in lexer progress: z3 finds per terminal set the inputs where only an empty match exists, the real Matcher is run on them "
+    "and on all short strings over class representatives.", E1_NOTE + " " + E3_NOTE,
+    "bounded model checking (Kani) of tables + dynamic symbolic execution (z3) of the real driver + z3 regex queries with native runs of the real Matcher", "DESIGN.md §3 C08")
+chk("C16", "E3 symdrive", "model_checking",
+    "DRIVER-LEVEL claim: every path of the real driver with recovery on (<= 2 tokens, bounded reductions, 1-2 errors; also with stream/action errors) that ends in Ok satisfies: tree tokens are a subsequence of the input in order, "
+    "every other input token lies in the span of exactly one error node, spans ordered/disjoint/not inverted, dropped_tokens lists consecutive and disjoint, states.len()==symbols.len()+1 at every reduce, no recovery without an error action. "
+    "NOT covered: that the tree is a derivation of a concrete grammar.", E3_NOTE,
+    "dynamic symbolic execution of the real natively compiled driver; branch feasibility decided by z3 (QF_UFLIA) over uninterpreted tables", "DESIGN.md §2 E3, §3 C16")
+chk("C17", "E2+E3", "model_checking",
+    "(a) reduce step (Kani): a fallible action (also inlined, also on the start reduction) failing at a symbolic call index with a symbolic error makes __reduce return Some(Err(User{that error})), push nothing, run no later action; "
+    "(b) driver (native DSE + z3): a stream Err(e) or a reduce Some(Err(e)) at any point (also during recovery) is returned unchanged, the stream is never polled again, no action/expected-list/recovery runs afterwards.",
+    E2_NOTE + " " + E3_NOTE, "bounded model checking (Kani) of the real reduce step + dynamic symbolic execution (z3) of the real driver", "DESIGN.md §3 C17")
+
 _pending = "check not built yet in this session (see DESIGN.md plan); will be claimed when its engine lands"
-for p in ["C02","C03","C06","C08","C16","C17"]:
+for p in ["C03"]:
     NA[p] = _pending
 NA["C07"] = "needs symbolic execution of the generated recursive-ascent code; Kani cannot (probe P2: >7 GB at N=1), not generic so the native symbolic driver cannot instantiate it"
 NA["C18"] = "the code is the grammar-file tokenizer, the self-hosted parser and the normaliser over interned strings/BTreeMaps; the tokenizer does not fit Kani even for 2 symbolic characters (probe P13)"
